@@ -28,7 +28,7 @@ from specb import *
 
 LEVEL = "exploration"
 PRECS_QUICK = [20, 53, 53, 53]
-PRECS_THOROUGH = [20, 53, 100, 200]
+PRECS_THOROUGH = [20, 53, 53, 100, 100, 200]
 PRECS_EL = [15, 53, 113, 400]              # elementary references
 PRECS_EL_T = [15, 53, 113, 400, 1000, 3000]
 
@@ -262,10 +262,10 @@ def run(rep, tier_, rng):
     if tier_ == "thorough":
         for k in K:
             k.precs = PRECS_THOROUGH if k.precs is PRECS_QUICK else PRECS_EL_T
-    run_kinds(rep, K, tier_, rng, n_quick=int(os.environ.get("VERIF_B3_N", 44)), n_thorough=450, precs_quick=PRECS_QUICK,
+    run_kinds(rep, K, tier_, rng, n_quick=int(os.environ.get("VERIF_B3_N", 44)), n_thorough=180, precs_quick=PRECS_QUICK,
               precs_thorough=PRECS_THOROUGH, assumptions=ASSUMPTIONS, rule=RULE, not_decided=NOT_DECIDED,
               params={"sentence_timeout": 100 if tier_ == "quick" else 400, "single_timeout": 100 if tier_ == "quick" else 400,
-                      "batch": 5, "ladder": [1]}, budget_quick=120)
+                      "batch": 5, "ladder": [1]}, budget_quick=105)
 
 
 def replay(rep, path):
